@@ -1,4 +1,4 @@
-import ShexerModel.Lemmas.GenStrNtTokB
+import ShexerModel.Lemmas.GenStrNtTokC
 /-! # Tie 1, fragment S — the N-Triples line tokenizer regenerated from /repo is the model's
 
 `GenS.nt_look_for_tokens` and the six `GenS.nt_look_for_*` index scans are the statement-by-statement translation of
@@ -10,6 +10,9 @@ suffixes instead.  Obligations of C06 (and of C08, which reads N-Triples through
   Python loop never ends: an IRI or a datatype IRI without `>`), the regenerated tokenizer returns the same tokens, without an exception,
   for every fuel of at least `len(line) + 1` rounds.  Together with `C06.reads_the_statement` this makes the round-trip theorem one about the
   tokenizer the code has now.
+* `tokens_diverge_is_model` - the other half: on a line for which the model has no answer the regenerated tokenizer runs out of fuel
+  **whatever fuel it is given** - the Python loop never ends (agent: GenStrNtTokC).  The two theorems together characterise the regenerated
+  tokenizer by `Nt.tokens` on every line.
 * `closing_quotes_is_model`, `before_blank_is_model`, `uri_token_is_model`, `literal_token_is_model` - the index each helper returns is the
   position of the last character of the token the model cuts (`Nt.closing`, `Nt.toBlank`, `Nt.toCorner`, `Nt.literalToken`); for the literal
   token `-1` (which restarts the scan for ever) exactly when the model has no answer. -/
@@ -46,6 +49,10 @@ theorem literal_token_is_model (s : List Char) (i fuel : Nat) (hq : s[i]? = some
 theorem tokens_is_model (line : List Char) (ts : List (List Char)) (h : Nt.tokens line = some ts) (fuel : Nat) (hf : line.length + 1 ≤ fuel) :
     GenS.nt_look_for_tokens fuel line = Except.ok ts :=
   GenStrNtTok.tokens_eq line ts h fuel hf
+
+theorem tokens_diverge_is_model (line : List Char) (h : Nt.tokens line = none) (fuel : Nat) :
+    GenS.nt_look_for_tokens fuel line = Except.error PyExc.outOfFuel :=
+  GenStrNtTok.tokens_diverges line h fuel
 
 /- non-vacuity: a statement with an awkward literal and a glued dot; a language tag; a line on which Python never returns -/
 example : (GenS.nt_look_for_tokens 100 "<http://e/s> <http://e/p> \"a \\\" @x ^^<y> . # \"^^<http://e/dt>.".toList).toOption =
